@@ -338,6 +338,14 @@ async def execute(gen, ops, w: SockWorld, run: Run, counters=None):
         elif o == "slow_conn":
             # the next connected=True notification takes op[1] seconds in a subscriber
             w.conn_delays.append(op[1])
+        elif o == "dns_move":
+            # the console gets a new address under the same name (a new DHCP lease); nobody
+            # answers at the old one any more
+            old_addr = net.dns.get(w.sock.host, w.sock.host)
+            if old_addr != op[1]:
+                net.gone = (set(net.gone) | {old_addr}) - {op[1]}
+                net.dns[w.sock.host] = op[1]
+            log.add("SCRIPT.dns_move", name=w.sock.host, old=old_addr, new=op[1])
         elif o == "cancel_sends":
             # the application gives up on the sends that are still under way (a time-out
             # around them, a cancelled request handler): their tasks are cancelled
@@ -386,7 +394,8 @@ async def _guarded(w, run, name, coro):
     w.log.add("API.ret", name=name)
 
 
-def run_script(gen, ops, *, tail=None, open_first=True, settle=40.0, debug=False):
+def run_script(gen, ops, *, tail=None, open_first=True, settle=40.0, debug=False,
+               host=None):
     """Execute ops in a fresh world.  `tail(w, run)` is an optional coroutine
     run after the script (e.g. recovery probes).  Returns Run."""
     run = Run()
@@ -395,7 +404,12 @@ def run_script(gen, ops, *, tail=None, open_first=True, settle=40.0, debug=False
     run.base_serial = dict(_SERIAL_BASE)
 
     async def main(loop, net, log):
-        w = SockWorld(gen, loop, net, log)
+        if host is not None:
+            # the client is configured with a host name; it resolves to an address
+            net.dns[host] = "10.0.0.1"
+            w = SockWorld(gen, loop, net, log, host=host)
+        else:
+            w = SockWorld(gen, loop, net, log)
         run.world = w
         if open_first:
             await _guarded(w, run, "open", w.sock.open_socket())
